@@ -40,8 +40,23 @@ RULE = ("nesting trees to depth 4, fan-out up to 6: collections in collections, 
         "Non-trivial = a model with more than two causaloids")
 
 
+def removed(run, d, bins, cases):
+    # nested structures whose graphs had causaloids REMOVED again: recount + reachability oracles of C11's second phase
+    import props.c11 as c11
+    c11.removed_phase(run, d, bins, None)
+
+
 def main():
-    run_property("C02", PROPS, gen_cases, CHECKS, RULE)
+    run_property("C02", PROPS, gen_cases, CHECKS, RULE + " SECOND PHASE: graphs from which causaloids were removed again before reasoning (C11's removal phase): a true verdict "
+                 "requires every live causaloid reachable over the remaining edges to have been evaluated", cross=removed)
 
 
-replay = mk_replay("C02", CHECKS)
+_replay = mk_replay("C02", CHECKS)
+
+
+def replay(path):
+    import json
+    if json.load(open(path)).get("case", {}).get("family") == "causalrm":
+        import props.c11 as c11
+        return c11.replay(path)
+    return _replay(path)
